@@ -373,9 +373,9 @@ func vfStableInsert(model []vfWEnt, e vfWEnt) []vfWEnt {
 }
 
 func vfH_C20_waitqueue() {
-	q := NewLockManagerWaitQueue(false)
+	prioMode := vfChoice("ctorPriority", 2) == 1
+	q := NewLockManagerWaitQueue(prioMode)
 	var model []vfWEnt
-	prioMode := false
 	next := 0
 	push := func(p uint8) {
 		l := vfNewWaiter(next, p)
@@ -405,13 +405,18 @@ func vfH_C20_waitqueue() {
 		pop()
 	}
 	for step := 0; step < 4; step++ {
-		switch vfChoice(vfName("op", step), 5) {
+		switch vfChoice(vfName("op", step), 6) {
 		case 0:
 			push(0)
 		case 1:
 			push(1)
 		case 2:
 			pop()
+		case 5:
+			// Reset (the key's manager is recycled): empty, back to arrival-order mode
+			q.Reset()
+			model = nil
+			prioMode = false
 		case 3:
 			h := q.Head()
 			if len(model) == 0 {
